@@ -65,6 +65,11 @@ pub struct TabScenario {
     /// returned or announced; then `finish()` must be closed (C01)
     #[serde(default)]
     pub disciplined: bool,
+    /// fault-injecting configuration of the interner script (interner_kind 3,
+    /// an element type whose `clone` and `cmp` can unwind): for interner
+    /// operation `i`, unwind out of the n-th clone-or-compare call it makes
+    #[serde(default)]
+    pub interner_faults: Vec<(u16, u16)>,
 }
 
 // ---------------------------------------------------------------------------
@@ -223,7 +228,7 @@ pub fn generate(rng: &mut Rng) -> TabScenario {
         }
     }
     ops.push((0, TabOp::Finish));
-    let interner_kind = rng.below(3) as u8;
+    let interner_kind = rng.below(4) as u8;
     let n_iops = rng.range(1, cfg.ops as u64);
     let interner_ops = (0..n_iops)
         .map(|_| {
@@ -236,7 +241,15 @@ pub fn generate(rng: &mut Rng) -> TabScenario {
             }
         })
         .collect();
-    TabScenario { cfg, pool: pool_v, ops, interner_kind, interner_ops, disciplined }
+    let interner_ops: Vec<IntOp> = interner_ops;
+    let interner_faults = if interner_kind == 3 {
+        (0..rng.range(1, 4))
+            .map(|_| (rng.below(interner_ops.len() as u64) as u16, rng.below(12) as u16))
+            .collect()
+    } else {
+        vec![]
+    };
+    TabScenario { cfg, pool: pool_v, ops, interner_kind, interner_ops, disciplined, interner_faults }
 }
 
 // ---------------------------------------------------------------------------
@@ -547,6 +560,143 @@ fn run_interner<T: Ord + Clone + std::fmt::Debug>(
     Ok(())
 }
 
+// --- an element type whose clone / cmp can unwind (fault injection) -------------
+
+thread_local! {
+    /// calls of clone / cmp left before the injected unwind; None = disarmed
+    static KEY_FAULT: std::cell::Cell<Option<u32>> = const { std::cell::Cell::new(None) };
+}
+
+struct KeyUnwind;
+
+fn key_fault_point() {
+    KEY_FAULT.with(|f| {
+        if let Some(n) = f.get() {
+            if n == 0 {
+                f.set(None);
+                std::panic::resume_unwind(Box::new(KeyUnwind));
+            }
+            f.set(Some(n - 1));
+        }
+    });
+}
+
+#[derive(Debug, PartialEq, Eq)]
+struct FaultyKey(u32);
+
+impl Clone for FaultyKey {
+    fn clone(&self) -> Self {
+        key_fault_point();
+        FaultyKey(self.0)
+    }
+}
+impl PartialOrd for FaultyKey {
+    fn partial_cmp(&self, o: &Self) -> Option<std::cmp::Ordering> {
+        Some(self.cmp(o))
+    }
+}
+impl Ord for FaultyKey {
+    fn cmp(&self, o: &Self) -> std::cmp::Ordering {
+        key_fault_point();
+        self.0.cmp(&o.0)
+    }
+}
+
+/// Interner script in the fault-injecting configuration.  An operation whose
+/// clone / compare call unwinds is caught by the caller; the oracle is relaxed
+/// narrowly: such an operation either happened or did not (the table equals
+/// the model with or without the value appended), never something in between;
+/// everything after it is compared call by call as usual.
+fn run_interner_faulted(scn: &TabScenario, mask: Mask) -> Check {
+    let values: Vec<u32> = (0..scn.pool.len() as u32).map(|i| i * 7 % 23).collect();
+    let mut it: Interner<FaultyKey> = Interner::new();
+    let mut model: Vec<u32> = Vec::new();
+    let raw = |it: &Interner<FaultyKey>| -> Vec<u32> { it.elements().iter().map(|k| k.0).collect() };
+    for (k, op) in scn.interner_ops.iter().enumerate() {
+        let fault = scn.interner_faults.iter().find(|f| f.0 as usize == k).map(|f| f.1 as u32);
+        let idx = |i: &u8| values[*i as usize % values.len()];
+        let outcome = {
+            KEY_FAULT.with(|f| f.set(fault));
+            let r = std::panic::catch_unwind(std::panic::AssertUnwindSafe(|| match op {
+                IntOp::Intern(i) => {
+                    let (ins, sym) = it.intern_or_get(FaultyKey(idx(i)));
+                    Some((ins, sym.into_untracked().id as usize))
+                }
+                IntOp::Get(i) => it.get(&FaultyKey(idx(i))).map(|s| (false, s.into_untracked().id as usize)),
+                IntOp::Resolve(_) | IntOp::Elements => None,
+            }));
+            KEY_FAULT.with(|f| f.set(None));
+            r
+        };
+        match outcome {
+            Err(payload) => {
+                if !payload.is::<KeyUnwind>() {
+                    std::panic::resume_unwind(payload);
+                }
+                probe("fault.unwind_in_key_clone_or_cmp.fired");
+                // happened, or did not: nothing in between
+                let now = raw(&it);
+                let v = match op {
+                    IntOp::Intern(i) | IntOp::Get(i) | IntOp::Resolve(i) => idx(i),
+                    IntOp::Elements => 0,
+                };
+                let mut with = model.clone();
+                if !with.contains(&v) {
+                    with.push(v);
+                }
+                if now == model {
+                    probe("reach.unwound_operation_had_no_effect");
+                } else if now == with && matches!(op, IntOp::Intern(_)) {
+                    model = with;
+                    probe("reach.unwound_operation_took_effect");
+                } else {
+                    fail(mask, "C12", "interner.torn_by_unwind", || {
+                        format!(
+                            "op {} ({:?}) unwound out of an element's clone/cmp: elements() = {:?}, before the call {:?}",
+                            k, op, now, model
+                        )
+                    })?;
+                    return Ok(());
+                }
+            }
+            Ok(got) => match op {
+                IntOp::Intern(i) => {
+                    let v = idx(i);
+                    let want = match model.iter().position(|x| *x == v) {
+                        Some(p) => (false, p),
+                        None => {
+                            model.push(v);
+                            (true, model.len() - 1)
+                        }
+                    };
+                    if got != Some(want) {
+                        fail(mask, "C12", "interner.intern_or_get_after_unwind", || {
+                            format!("op {}: intern_or_get({}) = {:?}, model {:?}", k, v, got, want)
+                        })?;
+                    }
+                }
+                IntOp::Get(i) => {
+                    let v = idx(i);
+                    let want = model.iter().position(|x| *x == v);
+                    if got.map(|g| g.1) != want {
+                        fail(mask, "C12", "interner.get_after_unwind", || {
+                            format!("op {}: get({}) = {:?}, model {:?}", k, v, got.map(|g| g.1), want)
+                        })?;
+                    }
+                }
+                _ => {}
+            },
+        }
+        if raw(&it) != model {
+            fail(mask, "C12", "interner.elements_after_unwind", || {
+                format!("op {}: elements() = {:?}, model {:?}", k, raw(&it), model)
+            })?;
+        }
+    }
+    probe("checks.interner_fault_injecting_configuration");
+    Ok(())
+}
+
 pub fn execute(scn: &TabScenario, mask: Mask) -> Result<TabResult, Violation> {
     core::log_reset();
     let mut res = TabResult { scenario_hash: hash_of(scn), ..Default::default() };
@@ -565,10 +715,11 @@ pub fn execute(scn: &TabScenario, mask: Mask) -> Result<TabResult, Violation> {
                     .collect();
                 run_interner(&vals, &scn.interner_ops, mask)
             }
-            _ => {
+            2 => {
                 let vals: Vec<_> = scn.pool.iter().map(|t| t.to_lib()).collect();
                 run_interner(&vals, &scn.interner_ops, mask)
             }
+            _ => run_interner_faulted(scn, mask),
         }
     });
     res.log_hash = core::log_value();
